@@ -84,26 +84,41 @@ ASSUME MaxDev <= DevCap
 
 SDev(s) == B(s.ty # s.topic) + B(s.bytes # "none") + B(s.recv # "ready")
 
+(* the two small extra families:
+   send    gnosis / service keypers, shares topic, receiver "primed" (threshold of signatures and
+           the keys are there: the flavour handler answers with a keys message), canonical message
+           and its single deviations
+   stress  access node, keys topic, receiver "ready", canonical message and the unknown / overflow set *)
+ModeOk(s) ==
+    CASE s.mode = "handle" -> SDev(s) <= MaxDev
+      [] s.mode = "send"   -> s.fl \in {"gnosis", "service"} /\ s.topic = "shares" /\ s.ty = "shares" /\ s.bytes = "none" /\ s.recv = "primed"
+      [] s.mode = "stress" -> s.fl = "access" /\ s.topic = "keys" /\ s.ty = "keys" /\ s.bytes = "none" /\ s.recv = "ready"
+BudgetA(s) == IF s.mode = "handle" THEN MaxDev - SDev(s) ELSE 1
+AOk(s, a) == IF s.mode # "stress" THEN TRUE ELSE (DevA(s.ty, a) = 0 \/ a.set # "MemberOk")
+BudgetB(s) == CASE s.mode = "handle" -> MaxDev - s.dev [] s.mode = "send" -> 1 - s.dev [] OTHER -> 0
+
 Init ==
     /\ stage = 0
     /\ \E fl \in MCFlavours : \E topic \in Topics(fl) : \E ty \in MsgTypes : \E by \in ByteClasses : \E rs \in RecvStates :
-          /\ c = [fl |-> fl, topic |-> topic, ty |-> ty, bytes |-> by, recv |-> rs, dev |-> 0]
-          /\ SDev(c) <= MaxDev
+       \E mo \in {"handle", "send", "stress"} :
+          /\ c = [fl |-> fl, topic |-> topic, ty |-> ty, bytes |-> by, recv |-> rs, dev |-> 0, mode |-> mo]
+          /\ ModeOk(c)
 
-Case(s, m) == [fl |-> s.fl, topic |-> s.topic, m |-> m, bytes |-> s.bytes, recv |-> s.recv]
+Case(s, m) == [fl |-> s.fl, topic |-> s.topic, m |-> m, bytes |-> s.bytes, recv |-> s.recv, mode |-> s.mode]
 
 Next ==
     \/ /\ stage = 0
-       /\ \E a \in ALE[c.ty][MaxDev - SDev(c)] :
-             IF HasB(c.ty)
-             THEN /\ stage' = 1
-                  /\ c' = [fl |-> c.fl, topic |-> c.topic, ty |-> c.ty, bytes |-> c.bytes, recv |-> c.recv,
-                           dev |-> SDev(c) + DevA(c.ty, a), a |-> a]
-             ELSE /\ stage' = 2
-                  /\ c' = Case(c, Whole(c.ty, a))
+       /\ \E a \in ALE[c.ty][BudgetA(c)] :
+             /\ AOk(c, a)
+             /\ IF HasB(c.ty)
+                THEN /\ stage' = 1
+                     /\ c' = [fl |-> c.fl, topic |-> c.topic, ty |-> c.ty, bytes |-> c.bytes, recv |-> c.recv, mode |-> c.mode,
+                              dev |-> (IF c.mode = "handle" THEN SDev(c) ELSE 0) + DevA(c.ty, a), a |-> a]
+                ELSE /\ stage' = 2
+                     /\ c' = Case(c, Whole(c.ty, a))
     \/ /\ stage = 1
        /\ stage' = 2
-       /\ \E b \in BLE[c.ty][OwnExtra(c.fl)][MaxDev - c.dev] : c' = Case(c, Merge(c.ty, c.a, b))
+       /\ \E b \in BLE[c.ty][OwnExtra(c.fl)][BudgetB(c)] : c' = Case(c, Merge(c.ty, c.a, b))
 
 Spec == Init /\ [][Next]_vars
 
